@@ -646,14 +646,17 @@ pub unsafe extern "C" fn SFileHasFile(archive: HANDLE, filename: *const c_char) 
         Err(_) => return false,
     };
 
-    let archives = ARCHIVES.lock().unwrap();
-    if let Some(archive_handle) = archives.get(&archive_id) {
-        matches!(
-            archive_handle.archive().find_file(filename_str),
-            Ok(Some(_))
-        )
-    } else {
-        false
+    let mut archives = ARCHIVES.lock().unwrap();
+    match archives.get_mut(&archive_id) {
+        Some(ArchiveHandle::ReadOnly { archive, .. }) => {
+            matches!(archive.find_file(filename_str), Ok(Some(_)))
+        }
+        // A writable archive answers from its current (possibly unflushed) tables, like
+        // SFileOpenFileEx does, not from the view it had when it was opened
+        Some(ArchiveHandle::Mutable { archive, .. }) => {
+            matches!(archive.find_file(filename_str), Ok(Some(_)))
+        }
+        None => false,
     }
 }
 
